@@ -322,6 +322,10 @@ class Tracer:
         s = _strip_derefs(sfx)
         fields = [(e[3], e[2]) for e in s if e[0] == "f"]
         name = body.local_name(l)
+        if fields and fields[0][0] and (fields[0][0] in getattr(F, "new_adts", ()) or fields[0][0].rsplit("::", 1)[0] in getattr(F, "new_adts", ())) and depth < self.max_depth + 2:
+            # a field of a struct the pinned tree does not have: a value parked in a new parameter bundle; go to its writes
+            self._follow_field(fields, s, depth, chain)
+            return
         if fields:
             det = {"fn": body.path, "idx": l, "name": name, "fields": fields, "base_ty": body.local_ty(l)}
             self._emit("field", det, body, chain)
